@@ -14,13 +14,23 @@ import time
 ROOT = os.path.dirname(os.path.dirname(os.path.abspath(__file__)))
 if hasattr(sys, "set_int_max_str_digits"):
     sys.set_int_max_str_digits(0)
-COQ = os.path.join(ROOT, "coq")
 BUILD = os.path.join(ROOT, "build")
 HARNESS = os.path.join(ROOT, "harness")
 REPO = os.environ.get("SV_REPO", "/repo")
+COQ_SRC = os.path.join(ROOT, "coq")
+if REPO == "/repo":
+    COQ = COQ_SRC
+else:
+    # a check against a scratch checkout gets its own copy of the Coq tree (sources and compiled files), so that
+    # the tables it extracts from the changed sources cannot race with checks running against /repo
+    COQ = os.path.join(BUILD, "coq-" + hashlib.sha256(REPO.encode()).hexdigest()[:8])
+    os.makedirs(COQ, exist_ok=True)
+    subprocess.run(["rsync", "-a", "--exclude", "Audit", "--exclude", "Extracted", COQ_SRC + "/", COQ + "/"], check=False)
+os.environ["SV_COQ_DIR"] = COQ
 NPROC = 16
 
 ENV = dict(os.environ)
+ENV["SV_COQ_DIR"] = COQ
 ENV.update({"CARGO_NET_OFFLINE": "true", "LC_ALL": "C.UTF-8", "LANG": "C.UTF-8"})
 
 
@@ -108,7 +118,7 @@ def prop_theorems(prop):
     p = os.path.join(COQ, "Properties", prop + ".v")
     if not os.path.exists(p):
         return []
-    return [(m.group(1), m.group(2)) for m in _THM_RE.finditer(open(p).read())]
+    return [(m.group(1), m.group(2)) for m in _THM_RE.finditer(strip_coq_comments(open(p).read()))]
 
 
 STD_AXIOMS_OK = {
@@ -178,7 +188,7 @@ def coq_audit(prop, allow=()):
     if res["bad_axioms"]:
         res["ok"] = False
     # pins
-    pin_file = os.path.join(COQ, "pins", prop + ".txt")
+    pin_file = os.path.join(COQ_SRC, "pins", prop + ".txt")
     cur = "\n".join("%s" % stmts.get(n, "?") for _, n in thms) + "\n"
     res["pins_current"] = cur
     if os.path.exists(pin_file):
